@@ -123,17 +123,38 @@ def r_typed(c):
         d = {torch.zeros(tuple(c["key_shape"])): torch.zeros(tuple(c["value_shape"]))}
         if c.get("second_value_shape") is not None:
             d[torch.zeros(2)] = torch.zeros(tuple(c["second_value_shape"]))
+        def ok_pair(kshape, vshape):
+            n = int(np.prod(kshape)) if kshape else 1
+            if typ is Gradients:
+                return tuple(vshape) == tuple(kshape)
+            if typ is Jacobians:
+                return len(vshape) >= 1 and tuple(vshape[1:]) == tuple(kshape)
+            if typ is GradientVectors:
+                return len(vshape) == 1 and vshape[0] == n
+            if typ is JacobianMatrices:
+                return len(vshape) == 2 and vshape[1] == n
+            return False
+        ks, vs, vs2 = tuple(c["key_shape"]), tuple(c["value_shape"]), c.get("second_value_shape")
+        expect = ok_pair(ks, vs) and (vs2 is None or ok_pair((2,), tuple(vs2)))
+        if expect and vs2 is not None and typ in (Jacobians, JacobianMatrices):
+            expect = vs[0] == vs2[0]
+        if typ is EmptyTensorDict:
+            expect = False
         try:
             td = typ(d)
+            built = True
         except (ValueError, IndexError):
-            return dict(reproduced=False, note="creation rejected")
-        for m in (lambda: td.__setitem__(1, 2), lambda: td.update({}), lambda: td.clear()):
-            try:
-                m()
-                return dict(reproduced=True, why=["mutation accepted"])
-            except TypeError:
-                pass
-        return dict(reproduced=None, error="shape acceptance must be re-derived by hand for this counterexample")
+            built = False
+        if built != expect:
+            return dict(reproduced=True, why=[f"{c['type']} with key shape {ks} and value shape {vs} (second value {vs2}) was {'accepted' if built else 'rejected'}"])
+        if built:
+            for m in (lambda: td.__setitem__(1, 2), lambda: td.update({}), lambda: td.clear()):
+                try:
+                    m()
+                    return dict(reproduced=True, why=["mutation accepted"])
+                except TypeError:
+                    pass
+        return dict(reproduced=False)
     return dict(reproduced=None, error=f"no real-stack re-execution for typed/{w}")
 
 
@@ -180,6 +201,8 @@ def r_transform(c):
         order = [k0 if i == 0 else k1 for i in c["order"]]
         agg = Agg([])
         res = Aggregate(agg, order)(Jacobians(jd))
+        if len(agg.seen) != 1:
+            return dict(reproduced=True, why=[f"the aggregator was called {len(agg.seen)} times on a Jacobian of {m} row(s)"])
         M = agg.seen[0]
         exp = np.concatenate([jd[t].reshape(m, -1).numpy() for t in order], axis=1)
         v = np.arange(1, M.shape[1] + 1, dtype=float) * 0.37
